@@ -836,7 +836,7 @@ func flowScenarioCfg(x *explore.X, depth int, reduced bool) {
 			n := n
 			evs = append(evs, event{fmt.Sprintf("B:WU(conn,%d)", n), func() { b.sendWU(0, n) }})
 		}
-		for _, v := range []int{w / 2, 2 * w} {
+		for _, v := range []int{w / 2, 2 * w, 0} {
 			v := v
 			if v != b.iws {
 				evs = append(evs, event{fmt.Sprintf("B:SETTINGS(IWS=%d)", v), func() {
@@ -1287,6 +1287,48 @@ func frameSizeScenario(x *explore.X, depth int) {
 	x.Outcome(fmt.Sprintf("dir%d iws%d max=%d/%d got=%d", dir, iws, a.maxFrame, b.maxFrame, b.gotConn))
 }
 
+// ---- family 3b: header blocks whose size is at the frame-size limit -----------------------------------------------
+
+// headerBoundary: one header block whose encoded size sweeps, octet by octet, across the receiver's
+// SETTINGS_MAX_FRAME_SIZE (16384): 16384-150 ... 16384+10 octets of literal value plus the rest of the list,
+// with and without priority fields, as a request (client) or a response (server). The relay must cut it into
+// HEADERS + CONTINUATION frames none of which exceeds the limit, and the receiver must decode the same list.
+func headerBoundary(x *explore.X) {
+	y := newSys(x)
+	defer y.stop()
+	n := 16384 - 150 + x.ChooseFree("value-length-16234+", 161)
+	prio := x.ChooseFree("priority-fields", 2) == 1
+	fromServer := x.ChooseFree("sender", 2) == 1
+	val := strings.Repeat("~", n)
+	pp := http2.PriorityParam{}
+	if prio {
+		pp = http2.PriorityParam{StreamDep: 0, Weight: 7, Exclusive: false}
+		pp.StreamDep = 3
+	}
+	if fromServer {
+		y.c.sendHeaders(1, reqHeaders("/1"), false, http2.PriorityParam{}, 0)
+		if !y.oracle("setup") {
+			return
+		}
+		y.s.sendHeaders(1, append(hdr(":status", "200"), hpack.HeaderField{Name: "x-big", Value: val}), false, http2.PriorityParam{}, 16000)
+	} else {
+		y.c.sendHeaders(1, append(reqHeaders("/b"), hpack.HeaderField{Name: "x-big", Value: val}), false, pp, 16000)
+	}
+	ev := fmt.Sprintf("HEADERS with a %d-octet value (priority fields: %v, from the server: %v)", n, prio, fromServer)
+	if !y.oracle(ev) {
+		return
+	}
+	a, b := y.c, y.s
+	if fromServer {
+		a, b = y.s, y.c
+	}
+	if d := prefixDiff(a.sentEl[1], b.gotEl[1]); d != "" || len(a.sentEl[1]) != len(b.gotEl[1]) {
+		x.Failf("not-delivered", "after %s: emitted %s, decoded %s", ev, clipEls(a.sentEl[1]), clipEls(b.gotEl[1]))
+		return
+	}
+	x.Outcome(fmt.Sprintf("prio=%v server=%v frames=%d", prio, fromServer, len(b.recv)))
+}
+
 func runBubble(t *testing.T, f func(x *explore.X)) func(x *explore.X) {
 	return func(x *explore.X) { bubble.Run(t, x, func() { f(x) }) }
 }
@@ -1296,7 +1338,7 @@ func testH2(t *testing.T, prop string) {
 	var s *explore.Suite
 	if prop == "C09" {
 		s = explore.NewSuite(t, "C09", "model_checking",
-			"a real relay pair (newRelay x2, relayFrames running) between two raw-frame endpoints on simulated pipes; (flow) receiver window w in {8,16} x data direction x connection window {ample, w+4 left} then EVERY sequence of depth 3 (quick; depth 4 for the 8-octet window with both connection-window set-ups) / 5 (thorough) over the menu {DATA sizes 3/w/w+1 on 2 streams, padded DATA, empty and non-empty END_STREAM DATA, RST, trailers, WINDOW_UPDATE stream/connection by 1/w, SETTINGS_INITIAL_WINDOW_SIZE down (w/2) and up (2w)} with explicit-state dedupe on (relay windows and queues, receiver ledger); (stalled-receiver) the receiver stops reading before step k (every k) and the relay's output channel towards it is filled, then EVERY sequence of the remaining events of a depth-3 (quick) / 4 (thorough) sequence over an 11-event menu arrives while emissions wait for room, then the receiver reads on; (frame-size) SETTINGS_MAX_FRAME_SIZE changes of both endpoints x DATA of 16384..40000 octets x header blocks of 20000/40000 octets x PUSH_PROMISE, depth 3/4; oracles at every quiescent state: every DATA frame fits the credit its receiver had granted on stream and connection, no frame exceeds the receiver's MAX_FRAME_SIZE, WINDOW_UPDATEs returned to a sender = flow-controlled octets (incl. padding) it sent on stream and connection, no queued frame that fits is held back")
+			"a real relay pair (newRelay x2, relayFrames running) between two raw-frame endpoints on simulated pipes; (flow) receiver window w in {8,16} x data direction x connection window {ample, w+4 left} then EVERY sequence of depth 3 (quick; depth 4 for the 8-octet window with both connection-window set-ups) / 5 (thorough) over the menu {DATA sizes 3/w/w+1 on 2 streams, padded DATA, empty and non-empty END_STREAM DATA, RST, trailers, WINDOW_UPDATE stream/connection by 1/w, SETTINGS_INITIAL_WINDOW_SIZE down (w/2, 0) and up (2w)} with explicit-state dedupe on (relay windows and queues, receiver ledger); (stalled-receiver) the receiver stops reading before step k (every k) and the relay's output channel towards it is filled, then EVERY sequence of the remaining events of a depth-3 (quick) / 4 (thorough) sequence over an 11-event menu arrives while emissions wait for room, then the receiver reads on; (header-block-at-frame-size-limit) one header block whose literal value grows octet by octet from 16234 to 16394 octets (across MAX_FRAME_SIZE 16384) x {with, without priority fields} x {request, response}; (frame-size) SETTINGS_MAX_FRAME_SIZE changes of both endpoints x DATA of 16384..40000 octets x header blocks of 20000/40000 octets x PUSH_PROMISE, depth 3/4; oracles at every quiescent state: every DATA frame fits the credit its receiver had granted on stream and connection, no frame exceeds the receiver's MAX_FRAME_SIZE, WINDOW_UPDATEs returned to a sender = flow-controlled octets (incl. padding) it sent on stream and connection, no queued frame that fits is held back")
 	} else {
 		s = explore.NewSuite(t, "C10", "model_checking",
 			"a real relay pair between two raw-frame endpoints with their own HPACK state; (fidelity) EVERY sequence of depth 3 (quick) / 4 (thorough) over a menu of ~25-40 enabled events on 2 streams in both directions {HEADERS plain / with priority / END_STREAM / split by the sender into HEADERS+CONTINUATION at several points / 20000-octet block, DATA small / padded / 20000 octets / empty END_STREAM, trailers (+CONTINUATION), RST_STREAM, PUSH_PROMISE, PRIORITY, PING, SETTINGS incl. HEADER_TABLE_SIZE 0/4096, SETTINGS ack, GOAWAY}; (stalled-fidelity) one endpoint stops reading before step k (every k), then EVERY sequence of the remaining events of a depth-3 (quick) / 4 (thorough) sequence over {20000-octet header blocks / trailers towards it, DATA both ways, PING, SETTINGS, WINDOW_UPDATE} arrives while the relay's writes to it are blocked, then it reads on: header blocks must arrive contiguous and everything decodes as sent; (flow) the flow family of C09 (w in {8,16} x direction x connection window {ample, w+4 left}, EVERY sequence of depth 3 quick - depth 4 for the 8-octet window - / 5 thorough, the visiting order of the per-stream queues explored) with its no-stranding and final-delivery oracles; (frame-size) the frame-size family of C09 (endpoints announcing different SETTINGS_MAX_FRAME_SIZE, header blocks of 20000/40000 octets, PUSH_PROMISE, large DATA; depth 3/4): a frame larger than any limit its receiver ever announced cannot be decoded by a conforming receiver; at every quiescent state the receiver's decoded element sequence per stream (header lists, concatenated DATA, END_STREAM position, RST code, PUSH_PROMISE) must be a prefix of what the sender emitted, connection-level frames must be relayed in order, and at the end everything emitted must have been decoded")
@@ -1316,6 +1358,7 @@ func testH2(t *testing.T, prop string) {
 		s.Add(explore.Scenario{Name: "relay-interleavings", Remote: true, MaxDev: map[string]int{"quick": 1, "thorough": 2}, Run: func(x *explore.X) { schedScenario(t, x) }})
 		s.Add(explore.Scenario{Name: "frame-size-quick", Remote: true, Tiers: []string{"quick"}, Run: runBubble(t, func(x *explore.X) { frameSizeScenario(x, 3) })})
 		s.Add(explore.Scenario{Name: "frame-size-thorough", Remote: true, Tiers: []string{"thorough"}, Run: runBubble(t, func(x *explore.X) { frameSizeScenario(x, 4) })})
+		s.Add(explore.Scenario{Name: "header-block-at-frame-size-limit", Remote: true, Run: runBubble(t, headerBoundary)})
 	} else {
 		s.Add(explore.Scenario{Name: "relay-interleavings", Remote: true, MaxDev: map[string]int{"quick": 1, "thorough": 2}, Run: func(x *explore.X) { schedScenario(t, x) }})
 		s.Add(explore.Scenario{Name: "fidelity-quick", Remote: true, Tiers: []string{"quick"}, Run: runBubble(t, func(x *explore.X) { fidelityScenario(x, 3) })})
@@ -1327,6 +1370,7 @@ func testH2(t *testing.T, prop string) {
 		s.Add(explore.Scenario{Name: "flow-thorough", Remote: true, Tiers: []string{"thorough"}, Run: runBubble(t, func(x *explore.X) { flowScenario(x, th) })})
 		s.Add(explore.Scenario{Name: "frame-size-quick", Remote: true, Tiers: []string{"quick"}, Run: runBubble(t, func(x *explore.X) { frameSizeScenario(x, 3) })})
 		s.Add(explore.Scenario{Name: "frame-size-thorough", Remote: true, Tiers: []string{"thorough"}, Run: runBubble(t, func(x *explore.X) { frameSizeScenario(x, 4) })})
+		s.Add(explore.Scenario{Name: "header-block-at-frame-size-limit", Remote: true, Run: runBubble(t, headerBoundary)})
 		s.Add(explore.Scenario{Name: "stalled-receiver-quick", Remote: true, Tiers: []string{"quick"}, Run: runBubble(t, func(x *explore.X) { stalledScenario(x, 3) })})
 		s.Add(explore.Scenario{Name: "stalled-receiver-thorough", Remote: true, Tiers: []string{"thorough"}, Run: runBubble(t, func(x *explore.X) { stalledScenario(x, 4) })})
 	}
